@@ -46,6 +46,7 @@ import pickle
 import random
 import shutil
 import hashlib
+import errno
 import tempfile
 import subprocess
 import signal
@@ -119,7 +120,9 @@ RULE = ('case = one history. Direct: 1-3 messages x 4-12 operations from {write,
         'mode sequential | overlapping greenlets (one per message, seeded yields), optional forced '
         'uuid collision with an existing id, write/retry timestamps all equal | ascending | descending per message '
         '(all in the past, so (timestamp, id) order of the restart backlog varies), 10%: one envelope > 2 default '
-        'AIO chunks. Queue-driven: 1-3 messages enqueued (seeded delays) into a real started Queue whose relay '
+        'AIO chunks; 40% of the sequential ones continue, from a drawn operation on, through a storage object whose '
+        'tmp_dir lies on ANOTHER filesystem (/dev/shm or another writable one with a different st_dev; skipped with a '
+        'counter when none exists). Queue-driven: 1-3 messages enqueued (seeded delays) into a real started Queue whose relay '
         'double follows a per-message script of 0-4 failing rounds (message 0 always two marking rounds) and an end '
         '(held / delivered / permanent / all settled / backoff gives up). chunk size in {16,64,256}. '
         'Every capture point of the history is one crash state, every '
@@ -169,13 +172,17 @@ ASSUMPTIONS = [
     'a second crash during the recovery run itself is not enumerated separately: load()/get() write nothing, and the '
     'fresh Queue\'s updates are ordinary operations over a tree with leftovers (covered by the retry configuration, '
     'un-crashed)',
+    'tmp_dir on another filesystem: an operation the unchanged tree refuses cleanly with EXDEV is an unacknowledged '
+    'operation (counted, nothing more demanded of that message); the temp files left on the other filesystem are '
+    'not part of the captured tree',
     'bounces are switched off in the Queue-driven histories (bounce_factory returns None): a bounce is a new '
     'message whose enqueue has not returned',
 ]
-REQUIRED_HITS = ['recovery-judged', 'queue-attempts-judged', 'real-kill-compared', 'queue-driven-history-judged',
+REQUIRED_HITS_BASE = ['recovery-judged', 'queue-attempts-judged', 'real-kill-compared', 'queue-driven-history-judged',
                  'overlapping-ops-crash-state-judged', 'half-written-state-judged', 'half-removed-state-judged',
                  'leftover-tmp-state-judged', 'fresh-queue-retry-judged', 'async-sigkill-judged',
                  'async-sigkill-inside-operation-judged']
+REQUIRED_HITS = list(REQUIRED_HITS_BASE)      # completed below, once the second-filesystem probe is defined
 SHARDS = {'quick': 16, 'thorough': 16}
 BUDGET = {'quick': 60, 'thorough': 700}
 
@@ -205,9 +212,43 @@ def scratch_base():
     return _own_scratch[0]
 
 
+_second_fs = []          # [per-shard directory on another filesystem than the scratch area] once created
+
+
+def second_fs_parent():
+    """A writable directory on ANOTHER filesystem than the scratch area (st_dev differs), or None."""
+    try:
+        here = os.stat(os.environ.get('VERIF_SCRATCH') or tempfile.gettempdir()).st_dev
+    except OSError:
+        return None
+    for cand in ('/dev/shm', '/run/shm', '/tmp', '/var/tmp', '/run/user/%d' % os.getuid()):
+        try:
+            if os.path.isdir(cand) and os.access(cand, os.W_OK | os.X_OK) and os.stat(cand).st_dev != here:
+                return cand
+        except OSError:
+            pass
+    return None
+
+
+def second_fs_dir():
+    if not _second_fs:
+        par = second_fs_parent()
+        if par is None:
+            return None
+        _second_fs.append(tempfile.mkdtemp(prefix='c04-xfs-', dir=par))
+    return _second_fs[0]
+
+
+# the tmp_dir-on-another-filesystem stratum decides only where a second filesystem exists
+if second_fs_parent() is not None:
+    REQUIRED_HITS.append('second-filesystem-tmp-judged')
+
+
 def shard_cleanup():
     while _own_scratch:
         shutil.rmtree(_own_scratch.pop(), ignore_errors=True)
+    while _second_fs:
+        shutil.rmtree(_second_fs.pop(), ignore_errors=True)
 
 
 # --------------------------------------------------------------------------- cases
@@ -275,7 +316,10 @@ def make_case(rnd, h, tier):
     return {'h': h, 'mode': mode, 'chunk': chunk, 'msgs': msgs, 'ops': ops,
             'collide': rnd.random() < 0.35,
             'kills': sorted(rnd.random() for _ in range(NKILLS[tier])) if mode == 'seq' else [],
-            'akills': [[rnd.random(), rnd.choice([0, 0.1, 0.2, 0.35, 0.5, 0.7, 1.0])] for _ in range(NAKILLS[tier])]}
+            'akills': [[rnd.random(), rnd.choice([0, 0.1, 0.2, 0.35, 0.5, 0.7, 1.0])] for _ in range(NAKILLS[tier])],
+            # configuration stratum: from this operation on the storage object is one whose tmp_dir lies on
+            # ANOTHER filesystem (a restart with a changed configuration)
+            'xfs_from': rnd.randint(2, max(2, len(ops) - 2)) if (mode == 'seq' and rnd.random() < 0.4) else None}
 
 
 def make_queue_case(rnd, h, tier, msgs, chunk):
@@ -578,7 +622,8 @@ class Installed(object):
         for name, kind, which in (('rename', 'rename', 1), ('replace', 'rename', 1), ('link', 'link', 1),
                                   ('symlink', 'link', 1), ('unlink', 'remove', 0), ('remove', 'remove', 0),
                                   ('truncate', 'truncate', 0), ('ftruncate', 'truncate', 0),
-                                  ('write', 'write', 0), ('pwrite', 'write', 0), ('writev', 'write', 0)):
+                                  ('write', 'write', 0), ('pwrite', 'write', 0), ('writev', 'write', 0),
+                                  ('sendfile', 'write', 0), ('copy_file_range', 'write', 1)):
             if hasattr(os, name) and getattr(os, name) not in w:
                 by_path(kind, getattr(os, name), which)
 
@@ -647,7 +692,7 @@ class Installed(object):
             self.fu.installed = True
         w = self._wrappers()
         homes = [(os, ('rename', 'replace', 'link', 'symlink', 'unlink', 'remove', 'truncate', 'ftruncate',
-                       'write', 'pwrite', 'writev', 'open')),
+                       'write', 'pwrite', 'writev', 'sendfile', 'copy_file_range', 'open')),
                  (builtins, ('open',)), (io, ('open',)), (tempfile, ('mkstemp',))]
         if _pyaio is not None:
             homes.append((_pyaio, ('aio_write',)))
@@ -727,6 +772,7 @@ class TracedStore(QueueStorage):
         self.inprogress = 0
         self.load_done = False
         self.dead = set()
+        self.xfs_active = False
         self.oplog = {}
         self.notes = {}
 
@@ -758,7 +804,11 @@ class TracedStore(QueueStorage):
         except Exception as e:
             # not acknowledged: its effect is unknown for good; nothing more is demanded of m
             self.inprogress -= 1
-            self.problems.append('%s(m%d) raised %s: %s' % (kind, m, type(e).__name__, e))
+            if self.xfs_active and isinstance(e, OSError) and e.errno == errno.EXDEV:
+                self.notes['operations-refused-cleanly-with-EXDEV(tmp_dir on another filesystem)'] = 1 + \
+                    self.notes.get('operations-refused-cleanly-with-EXDEV(tmp_dir on another filesystem)', 0)
+            else:
+                self.problems.append('%s(m%d) raised %s: %s' % (kind, m, type(e).__name__, e))
             st['state'] = 'unknown'
             self.dead.add(m)
             tracer.journal('raised', seq, m, kind, None)
@@ -942,7 +992,12 @@ def run_history(case, root, tracer, model, problems, light=False):
         if case['mode'] == 'queue':
             fu.relay = run_queue_history(case, store, envs, model)
         elif case['mode'] == 'seq':
+            xdir = case.get('xfs_dir') if case.get('xfs_from') is not None else None
             for seq, (m, kind, arg, y) in enumerate(case['ops']):
+                if xdir and seq == case['xfs_from'] and os.path.isdir(xdir):
+                    store.inner = D.DiskStorage(os.path.join(root, 'env'), os.path.join(root, 'meta'), xdir)
+                    store.xfs_active = True
+                    store.xfs_seq = store.seq
                 do_op(seq, m, kind, arg, y)
         else:
             per = {}
@@ -1472,6 +1527,14 @@ def _run_case(case, R, where):
         os.makedirs(os.path.join(root, d))
     model = new_model(case)
     problems = []
+    if case.get('xfs_from') is not None:
+        par = second_fs_dir()
+        if par is None:
+            R.count('second-filesystem-not-available')
+            case = dict(case, xfs_from=None)
+        else:
+            case = dict(case, xfs_dir=tempfile.mkdtemp(prefix='h%d-' % case['h'], dir=par))
+            R.count('histories-with-tmp_dir-on-another-filesystem')
     tracer = Tracer(root, expect_fn=lambda: copy_model(model))
 
     w, fu = core.watchdog_call(lambda: run_history(case, root, tracer, model, problems), 90)
@@ -1574,6 +1637,9 @@ def _run_case(case, R, where):
             R.count('crash-states-judged-under-all-queue-configs')
         R.eval()
         found = recover(s['tree'], expect, case, R, where, all_configs=extra)
+        if (op is not None and getattr(fu.store, 'xfs_active', False) and op.seq >= fu.store.xfs_seq
+                and any(required(st) for st in expect)):
+            R.hit('second-filesystem-tmp-judged')
         if case['mode'] == 'queue' and op is not None:
             R.hit('queue-driven-history-judged')
         if found:
@@ -1608,6 +1674,8 @@ def _kill_dirs(case, where):
     for d in DIRS:
         os.makedirs(os.path.join(kroot, d))
     cfile = os.path.join(kdir, 'case.json')
+    if case.get('xfs_dir'):
+        case = dict(case, xfs_dir=tempfile.mkdtemp(prefix='k%d-' % case['h'], dir=second_fs_dir()))
     with open(cfile, 'w') as f:
         f.write(core.jdumps(case))
     return kdir, kroot, cfile
